@@ -114,3 +114,56 @@ func predecessorDroppedWhileJoinWaits() (problem string, panics int64) {
 	}
 	return "", 0
 }
+
+// joinWhilePredecessorPointerStale: the predecessor L of S has just left
+// gracefully and S has not noticed yet (its predecessor pointer still names
+// L) when a valid joiner between L and S asks S to join. The first answer
+// must be a hand-off or a retryable refusal.
+func joinWhilePredecessorPointerStale() (problem string) {
+	const (
+		P = uint64(1) << 44
+		L = uint64(2) << 44
+		J = uint64(5) << 43
+		S = uint64(3) << 44
+	)
+	r := newSimRing(ringsim.Config{Seed: 52, StabilizeInterval: time.Second, FixFingerInterval: time.Second, PredCheckInterval: time.Second})
+	defer r.net.Close()
+	if err := r.buildRing([]uint64{P, L, S}, func(i int) int { return 0 }); err != nil {
+		return "precondition: " + err.Error()
+	}
+	if _, c := r.settle(60, true, nil); c.Problem != "" {
+		return "precondition: " + c.Problem
+	}
+	r.fillLists(20)
+	leaveDone := make(chan struct{})
+	go func() { r.members[L].Node.Leave(); close(leaveDone) }()
+	defer func() { <-leaveDone }()
+	sawLock := false
+	for i := 0; i < 200000; i++ {
+		ls, ss := r.members[L].Node.VerifState(), r.members[S].Node.VerifState()
+		if ss == chord.Transferring {
+			sawLock = true
+		}
+		if ls == chord.Left && ss == chord.Active && sawLock {
+			break
+		}
+		time.Sleep(50 * time.Microsecond)
+	}
+	if r.members[L].Node.VerifState() != chord.Left || !sawLock {
+		return "precondition: leave did not complete"
+	}
+	if pre := r.members[S].Node.VerifPredecessor(); pre == nil || pre.ID() != L {
+		return "precondition: successor already repaired its predecessor pointer"
+	}
+	_, _, err := r.net.Proxy(J, S).RequestToJoin(r.net.Proxy(S, J))
+	if n := r.net.Panics.Load(); n > 0 {
+		return "handler panicked while serving the join request: " + firstLine(r.net.PanicLog[0])
+	}
+	if err != nil && !chord.ErrorIsRetryable(err) {
+		return fmt.Sprintf("join request to a node whose predecessor has just left answered with the non-retryable error %q", err)
+	}
+	if err == nil {
+		r.net.Proxy(J, S).FinishJoin(false, true)
+	}
+	return ""
+}
